@@ -30,14 +30,18 @@ type placement struct {
 }
 
 type outcome struct {
-	P               placement `json:"placement"`
-	SetupErr        string    `json:"setup_err,omitempty"`
-	CloseErr        string    `json:"close_err,omitempty"`
-	CloseMs         float64   `json:"close_ms"`         // duration of the Close call
-	AfterRelease    float64   `json:"after_release_ms"` // Close return minus holder release (can be negative)
-	HolderErr       string    `json:"holder_err,omitempty"`
-	HolderBytes     int64     `json:"holder_bytes"`
-	GateHeldAtClose bool      `json:"gate_held_at_close"`
+	P                        placement `json:"placement"`
+	SetupErr                 string    `json:"setup_err,omitempty"`
+	CloseErr                 string    `json:"close_err,omitempty"`
+	CloseMs                  float64   `json:"close_ms"`         // duration of the Close call
+	AfterRelease             float64   `json:"after_release_ms"` // Close return minus holder release (can be negative)
+	HolderErr                string    `json:"holder_err,omitempty"`
+	SecondClose              bool      `json:"second_close_called"`
+	SecondCloseMs            float64   `json:"second_close_ms"`
+	SecondCloseErr           string    `json:"second_close_err,omitempty"`
+	SecondCloseBeforeRelease bool      `json:"second_close_returned_before_holder_released"`
+	HolderBytes              int64     `json:"holder_bytes"`
+	GateHeldAtClose          bool      `json:"gate_held_at_close"`
 }
 
 // blockingWriter blocks in its first Write until released.
@@ -58,11 +62,11 @@ func (w *blockingWriter) Write(p []byte) (int, error) {
 }
 
 func run(c *vf.Ctx) {
-	c.Rule("placement = (gate holder kind, hold duration D, offset of the Close call inside D, repetition) on a real single-node Store in its own process; holder 'backup' = binary Backup into a writer that blocks for D (holds the gate legitimately), 'snapshot' = user snapshot slowed by a hook sleep inside the gated section, 'none' = nobody. Measured: duration of Store.Close and the lag L between holder release and Close returning. non-trivial = the gate was observed held when Close was called; distinct by (holder, D, offset)")
+	c.Rule("placement = (gate holder kind, hold duration D, offset of the Close call inside D, repetition) on a real single-node Store in its own process; holder 'backup' = binary Backup into a writer that blocks for D (holds the gate legitimately), 'snapshot' = user snapshot slowed by a hook sleep inside the gated section, 'none' = nobody. Measured: duration of Store.Close and the lag L between holder release and Close returning; after a Close that gave up at the wait limit a second Close is called at once and must not return nil before the holder has released the gate. non-trivial = the gate was observed held when Close was called; distinct by (holder, D, offset)")
 	c.Assume("bounded-progress restatement with wide margins: L <= 1.5 s is prompt, L >= 5 s is late, in between inconclusive; when the holder keeps the gate for >= 12 s after the Close call, Close must fail between 8 s and 13.5 s after the call (9-12 s: inconclusive); wall-clock used only with these margins")
-	holds := []int{0, 20, 200, 1000, 3000, 7000}
+	holds := []int{0, 20, 200, 1000, 3000, 7000, 15000}
 	if !c.Quick() {
-		holds = append(holds, 5500, 9000, 12000, 15000)
+		holds = append(holds, 5500, 9000, 12000)
 	}
 	var ps []placement
 	reps := c.N(1, 3)
@@ -127,6 +131,13 @@ func run(c *vf.Ctx) {
 		if o.HolderErr != "" && o.P.Holder == "snapshot" {
 			c.Count("snapshot_holder_interrupted_by_shutdown", 1)
 			o.HolderErr = ""
+		}
+		if o.SecondClose {
+			c.Count("second_close_after_failed_close", 1)
+			if o.SecondCloseErr == "" && o.SecondCloseBeforeRelease {
+				c.Violation("second-close-did-not-wait", fmt.Sprintf("a Close that gave up after %.0f ms was followed at once by a second Close, which returned nil after %.0f ms although the %s holder had not released the gate (placement %+v)", o.CloseMs, o.SecondCloseMs, o.P.Holder, o.P), o)
+				continue
+			}
 		}
 		if o.HolderErr != "" {
 			c.Violation("holder-failed:"+o.P.Holder, fmt.Sprintf("gate holder %s failed while a Close was pending: %s (placement %+v)", o.P.Holder, o.HolderErr, o.P), o)
@@ -257,6 +268,18 @@ func worker(args []string) {
 	o.CloseMs = float64(t1.Sub(t0).Microseconds()) / 1000
 	if err != nil {
 		o.CloseErr = err.Error()
+	}
+	// A Close that gave up must leave the gate with its holder: a second Close,
+	// called at once while the holder is still at work, has to wait for it again.
+	if err != nil && p.Holder == "backup" && releasedAt.IsZero() {
+		o.SecondClose = true
+		t2 := time.Now()
+		err2 := n.Store.Close(true)
+		o.SecondCloseMs = float64(time.Since(t2).Microseconds()) / 1000
+		if err2 != nil {
+			o.SecondCloseErr = err2.Error()
+		}
+		o.SecondCloseBeforeRelease = releasedAt.IsZero()
 	}
 	if p.Holder != "none" {
 		select {
